@@ -29,6 +29,7 @@ from funsor.terms import (
     Subs,
     Unary,
     Variable,
+    _reduce_unrelated_vars,
     to_funsor,
 )
 from funsor.typing import Variadic
@@ -530,6 +531,12 @@ def binary_to_contract(op, lhs, rhs):
 
 @normalize.register(Reduce, AssociativeOp, Funsor, frozenset)
 def reduce_funsor(op, arg, reduced_vars):
+    if not reduced_vars <= arg.input_vars:
+        # Variables the argument does not mention contribute a multiplicity;
+        # leave them to the Reduce rules (see terms._reduce_unrelated_vars).
+        new_arg, new_reduced_vars = _reduce_unrelated_vars(op, arg, reduced_vars)
+        if new_reduced_vars is None:
+            return new_arg
     return Contraction(op, ops.null, reduced_vars, arg)
 
 
